@@ -163,7 +163,8 @@ func NewWorld(m *Sim) *World {
 // every running node must be free. A failure names the mutex before anything
 // blocks on it.
 func (w *World) lockProbe() {
-	for _, n := range w.Servers {
+	for _, name := range sortedKeys(w.Servers) {
+		n := w.Servers[name]
 		if !n.Up || n.S == nil {
 			continue
 		}
@@ -172,7 +173,8 @@ func (w *World) lockProbe() {
 			w.Fail(w.Prop+".lock", "server", "a mutex of %s is held while every goroutine is parked or blocked (main=%v servers=%v limiter=%v, phase %s)", n.Name, a, b, c, w.Phase)
 		}
 	}
-	for _, c := range w.Clients {
+	for _, name := range sortedKeys(w.Clients) {
+		c := w.Clients[name]
 		if !c.Up || c.C == nil {
 			continue
 		}
